@@ -406,7 +406,7 @@ def gen_scripts(tier, seed):
 def main(tier, seed):
     run = Run("C20", tier, seed, "fault_enumeration")
     scripts = gen_scripts(tier, seed)
-    per = 6 if tier == "quick" else 60
+    per = 6 if tier == "quick" else 200
     n = NCPU
     jobs = [{"seed": seed, "lo": i * per, "hi": (i + 1) * per, "scripts": scripts[i::n]} for i in range(n)]
     run.absorb(run_shards("checks.c20", "shard", jobs, timeout=3400))
